@@ -655,6 +655,7 @@ func (e *Engine) heapByName(fc *FnCtx, pkgPath, name string) (HeapVar, bool) {
 		if g != nil {
 			env := fc.specEnv(&State{PC: TTrue, Heap: map[string]Term{}})
 			env.PkgPath = pkgPath
+			env.PkgPath = g.PkgPath // a ghost's type is written in its declaring package
 			gt, kind := env.resolveType(g.Type)
 			return HeapVar{"$g." + name[1:], env.sortOfKind(gt, kind), HGhost}, true
 		}
